@@ -24,7 +24,7 @@ from typing import Union
 from liquid import CachingDictLoader, Environment
 from liquid import FalsyStrictUndefined, StrictDefaultUndefined, StrictUndefined, Undefined
 
-from vf.hx import excluded, finish
+from vf.hx import cbool, cint, excluded, finish, untraced
 
 PROPERTY = "C16"
 
@@ -211,6 +211,20 @@ FAMILIES = {
         ("{% ifchanged %}{{ x }}{% endifchanged %}", "x", "not px"),
         ("{% increment q %}{{ q }}{% decrement r %}", "", "False"),
     ],
+    # constructs that key state on their evaluated arguments (cycle groups, ifchanged): missing values must key alike
+    # under every undefined type
+    "keyed": [
+        ("{% cycle 'p', a.b.c %}{% cycle 'p', a.q %}", "a", "False"),
+        ("{% cycle 'p', a.q %}{% cycle 'p', a.z %}|", "a", "False"),
+        ("{% cycle 'p', a.q %}{% cycle 'p', xs[9] %}{% cycle 'p', xs.q %}|", "al", "False"),
+        ("{% cycle 'p', a.b.l[5] %}{% cycle 'p', a.b.l[6] %}|", "a", "False"),
+        ("{% cycle 'p', x %}{% cycle 'p', y %}|", "xy", "False"),
+        ("{% cycle x: 'p', 'q' %}{% cycle y: 'p', 'q' %}|", "xy", "False"),
+        ("{% for j in xs %}{% cycle 'p', a.q, 'r' %}{% cycle 'p', a.z, 'r' %}{% endfor %}|", "al", "False"),
+        ("{% ifchanged %}{{ a.q | default: 1 }}{% endifchanged %}{% ifchanged %}{{ a.z | default: 1 }}{% endifchanged %}|", "a", "False"),
+        ("{% cycle 'p', 'q', a.q %}{% cycle 'p', 'q', a.z %}{% cycle 'p', 'q', a.q %}|", "a", "False"),
+        ("{% cycle x, 'q' %}{% cycle y, 'q' %}|", "xy", "not px"),
+    ],
     "partial": [
         ("{% render 'p', v: x %}", "x", "not px"),
         ("{% render 'p' %}", "", "True"),
@@ -293,6 +307,7 @@ def run(fam, k, px, py, pn, ps, pa, nx, i, vx, vy, vn, vs):
 
 DETAIL = {}
 CONDITIONS = []
+UNTRACED = ("keyed",)
 
 
 def _mk(fam):
@@ -326,8 +341,38 @@ def _mk(fam):
 
 
 for _fam in FAMILIES:
+    if _fam in UNTRACED:
+        continue
     globals()["c16_" + _fam] = _mk(_fam)
     CONDITIONS.append({"fn": "c16_" + _fam, "quick": 75, "thorough": 240})
+
+
+_TX = (None, True, 1, "a")
+
+
+def c16_keyed(k: int, px: bool, py: bool, pa: int, nx: int, tx: int) -> bool:
+    """
+    pre: 0 <= k <= 9 and 0 <= pa <= 3 and -1 <= nx <= 1 and 0 <= tx <= 3
+    post: _
+    """
+    # state keyed on str() of evaluated arguments (cycle groups, ifchanged): selector-only, the renders run on the
+    # plain interpreter; the dimensions no template of this family reads are fixed
+    if excluded("c16_keyed", locals()):
+        return True
+    k, pa, nx, tx = cint(k, 0, 9), cint(pa, 0, 3), cint(nx, -1, 1), cint(tx, 0, 3)
+    px, py = cbool(px), cbool(py)
+    r = untraced(lambda: run("keyed", k, px, py, False, False, pa, nx, 0, _TX[tx], 5, 1, ""))
+    return finish(r["R1"] and r["R2"] and r["R3"])
+
+
+def _keyed_detail(k, px, py, pa, nx, tx):
+    r = run("keyed", k, px, py, False, False, pa, nx, 0, _TX[tx], 5, 1, "")
+    r["data"] = repr(r["data"])
+    return r
+
+
+DETAIL["c16_keyed"] = _keyed_detail
+CONDITIONS.append({"fn": "c16_keyed", "quick": 60, "thorough": 120, "sel_only": True})
 
 ASSUMPTIONS = [
     "templates are the concrete skeletons of harness/c16.py (FAMILIES); the four environments differ only in undefined=",
